@@ -32,10 +32,11 @@ type factRec struct {
 }
 
 type workItem struct {
-	job   *Job
-	trail []Decision
-	env   map[string]*big.Int
-	benv  map[string]bool
+	job     *Job
+	trail   []Decision
+	env     map[string]*big.Int
+	benv    map[string]bool
+	retries int // how often this path was restarted after its solver process died
 }
 
 // Job is one harness run under one concrete configuration (a grid cell).
@@ -81,24 +82,25 @@ type OblResult struct {
 }
 
 type JobResult struct {
-	Job         *Job
-	Paths       int
-	Infeasible  int // paths ended by an unsatisfiable assumption
-	Obls        []OblResult
-	Reached     map[string]int
-	Errors      []string
-	Stats       term.Stats
-	Steps       int64
-	Decisions   int64
-	Merged      int64
-	UnknownFeas int
-	Skipped     int // work items dropped after MaxViolations counterexamples
-	WallMS      int64
-	Samples     []string
-	started     time.Time
-	wallHit     bool
-	mu          sync.Mutex
-	pending     int
+	Job            *Job
+	Paths          int
+	Infeasible     int // paths ended by an unsatisfiable assumption
+	Obls           []OblResult
+	Reached        map[string]int
+	Errors         []string
+	Stats          term.Stats
+	Steps          int64
+	Decisions      int64
+	Merged         int64
+	UnknownFeas    int
+	Skipped        int // work items dropped after MaxViolations counterexamples
+	SolverRestarts int // paths restarted because their solver process died
+	WallMS         int64
+	Samples        []string
+	started        time.Time
+	wallHit        bool
+	mu             sync.Mutex
+	pending        int
 }
 
 // Path is the state of one symbolic path.
@@ -954,6 +956,22 @@ func (x *Exec) runPath(it workItem, sess, sessA *term.Session, res *JobResult, f
 					res.Infeasible++
 					res.mu.Unlock()
 				case engineErr:
+					if strings.HasPrefix(e.msg, "solver process died") && it.retries < 2 {
+						// z3 crashed (a segfault of z3 5.1.0 was observed once under load) or was killed by the
+						// watchdog: the path is deterministic in its trail, so it is restarted from the decisions
+						// taken so far (already forked alternatives are not forked again) on fresh solver processes
+						sess.Reset()
+						if sessA != nil && sessA.Dead() {
+							sessA.Reset()
+						}
+						tr := make([]Decision, len(p.trail))
+						copy(tr, p.trail)
+						res.mu.Lock()
+						res.SolverRestarts++
+						res.mu.Unlock()
+						fork(workItem{job: it.job, trail: tr, retries: it.retries + 1})
+						break
+					}
 					p.noteErr("ENGINE: " + e.msg)
 				case specAbort:
 					p.noteErr("ENGINE: stray speculation abort: " + e.why)
